@@ -27,8 +27,8 @@ MODS = ["AsmjitVerif.Props.C15"]
 WRAP = "-Wl,--wrap=malloc,--wrap=realloc,--wrap=free,--wrap=mmap,--wrap=munmap,--wrap=mprotect,--wrap=shm_open," \
        "--wrap=ftruncate,--wrap=ftruncate64,--wrap=close"
 
-QUICK_WL = ["asm", "a64", "build", "comp", "jit", "jitdual", "cont", "asmretry"]
-THOROUGH_WL = QUICK_WL + ["asmbig", "buildbig", "compbig", "jitpools", "buildretry"]
+QUICK_WL = ["asm", "a64", "build", "comp", "jit", "jitdual", "cont", "asmretry", "asmbig", "buildbig", "compbig", "jitpools", "buildretry"]
+THOROUGH_WL = QUICK_WL
 CLASSES = ("arena", "heap", "vm")
 
 
@@ -189,7 +189,7 @@ def sweep_lines(w, counts, rng, tier):
     for cls in CLASSES:
         n = counts[cls]
         ks = list(range(n))
-        cap = 400 if tier == "quick" else 100000
+        cap = 700 if tier == "quick" else 100000
         if len(ks) > cap:      # quick: every request of the first 150, then a seeded sample
             ks = ks[:150] + sorted(rng.sample(ks[150:], cap - 150))
         lines += ["fault %s %s %d" % (w, cls, k) for k in ks]
@@ -296,7 +296,7 @@ def run(res):
     res.coverage["evaluations"] = len(ops) + n_runs
     res.coverage["distinct_nontrivial"] = len({o for o in ops if not o.startswith("o 0 ") and o != "o reset"}) + sum(dist["fired"].values())
     res.coverage["rule"] = ("distinct (operation, fault mask) lines with at least one failing request + number of injected failures that actually fired "
-                            "in workload runs (quick: every request index of 8 workloads up to 400 per class + pairs + 12 random multi-failure runs each)")
+                            "in workload runs (quick: every request index of 13 workloads up to 700 per class + pairs + 40 random multi-failure runs each; thorough: 2400 sessions, 300 multi-failure runs and 40 pairs per workload and class)")
     res.coverage["traces_validated_against_impl"] = len(split_sessions(ops)) + n_runs
     res.coverage["exhaustive"] = False
 
